@@ -121,12 +121,13 @@ def _run(legs):
     mc_tail = ("VIEW MCView\nINVARIANTS TypeOK P_C17_ListenerServes P_C17_CommandsReachContext\n"
                "PROPERTY P_C17_OnlyCertOpsChangeServed")
     r = vlib.tlc("CertListener", write_cfg(wd, "lst_mc.cfg", "Spec", 4 if thorough else 3, [], ["default", "tls12"], mc_tail),
-                 PID, workers=4 if thorough else 3, timeout=1500, coverage=True)
+                 PID, workers=4 if thorough else 3, timeout=1500, coverage=thorough)
     legs.tlc.append(r)
     if r["violated"]:
         legs.violations.append(("spec:" + r["violated"], "CertListener.tla itself violates %s" % r["violated"], r["out"][-3000:], PREFIX + "spec.json"))
         return
-    vlib.require_actions_covered(r, ACTIONS)
+    if thorough:
+        vlib.require_actions_covered(r, ACTIONS)   # (quick tier: -coverage triples the run; the self-tests below need every action)
     # self-tests: every deviation of the class and every open one must be refuted
     st_tail = "VIEW MCView\nINVARIANTS P_C17_ListenerServes"
 
@@ -144,7 +145,7 @@ def _run(legs):
     # 2. S->I: histories with predictions (open deviations on), replayed on real workers
     n_hist = 1600 if thorough else 96
     steps = 20 if thorough else 16
-    gw = 4 if thorough else 2
+    gw = 1      # RandomElement: the workers of one simulation would repeat each other
     hist = os.path.join(wd, "listener_hist.ndjson")
     with open(hist, "w") as f:
         g = vlib.tlc("Gen_CertListener", write_cfg(wd, "lst_gen.cfg", "GenSpec", 8, odevs, ALL_FLAVOURS,
@@ -164,7 +165,13 @@ def _run(legs):
         vlib.log("listener %s: %d histories, %d commands (%d listener operations), %d handshakes, %d void, classes %s" % (
             s["concretisation"], ws["histories"], ws["commands"], ws["listener_operations"], ws["tcp_tls_handshakes"], ws["void_runs"], s["classes"]))
         hist_lines = None
+        # one verdict per class is confirmed and reported (at most 4 per run): the others repeat it
+        firsts = {}
         for v in vs:
+            firsts.setdefault(v["class"], v)
+        if len(vs) > len(firsts):
+            legs.extra["listener_verdicts_same_class_not_listed"] = legs.extra.get("listener_verdicts_same_class_not_listed", 0) + len(vs) - len(firsts)
+        for v in list(firsts.values())[:4]:
             if _confirm(legs, v, args):
                 if hist_lines is None:
                     with open(hist) as f:
@@ -206,7 +213,10 @@ def _run(legs):
             "--walks", "600" if thorough else "60", "--len", "20" if thorough else "16",
             "--threads", "12" if thorough else "8", "--trace-out", tr]
     s, vs = _harness(legs, args)
+    firsts = {}
     for v in vs:   # only command answers / failed handshakes are judged by the harness in this mode
+        firsts.setdefault(v["class"], v)
+    for v in list(firsts.values())[:4]:
         cargs = [a for a in args]
         cargs[cargs.index("--trace-out") + 1] = os.path.join(wd, "listener_trace_confirm.ndjson")
         if not _confirm(legs, v, cargs):
